@@ -218,6 +218,9 @@ func genOptSet(t *rapid.T, sepMode int) OptSet {
 	var o OptSet
 	if sepMode == 1 || (sepMode == 2 && rapid.Bool().Draw(t, "withsep")) {
 		o.Sep = rapid.SampledFrom(separators).Draw(t, "sep")
+		if rapid.IntRange(0, 5).Draw(t, "dot") == 5 {
+			o.Sep = "."
+		}
 	}
 	// (rapid prefers small numbers: the plain case comes first)
 	switch rapid.SampledFrom([]int{0, 0, 0, 0, 0, 0, 1, 1, 2, 3}).Draw(t, "numopts") {
